@@ -142,3 +142,23 @@ Definition chk_c04_ref (c : val) : val :=
   | VL [VN 99] => verdict_propfail 4 (VL [])
   | _ => if val_eqb (nthv 0 impl) (nthv 1 impl) && val_eqb (nthv 2 impl) (nthv 3 impl) then verdict_ok else verdict_propfail 7 (VL [])
   end.
+
+(* ---------- C04, text forms of Timestamp / Duration / Value / Struct parameters (no model: canonical proto3 JSON
+   parsing of the text is the reference) ----------
+   input ( kind field text place ) impl ( bridge-result reference-result ) - results ( 0 wire ) accepted, ( code ) refused, ( 99 ) panic
+     kind 1, the canonical encoder's text of a value:  8: the value does not arrive (refused, or another value stored)
+     kind 0, any text:  7: bridge and reference both accept and store different messages
+                        2: refused with something other than InvalidArgument ; 4: panic *)
+Definition res_acc (v : val) : bool := match as_L v with VN 0 :: _ => true | _ => false end.
+Definition prop_c04_text (input impl : val) : option Z :=
+  let got := nthv 0 impl in
+  let want := nthv 1 impl in
+  match as_L got with
+  | [VN 99] => Some 4
+  | _ =>
+    if negb (res_acc got) && negb (val_eqb got (VL [VN 3])) then Some 2
+    else if Z.eqb (as_Z (nthv 0 input)) 1 then (if val_eqb got want then None else Some 8)
+    else if res_acc got && res_acc want && negb (val_eqb got want) then Some 7 else None
+  end.
+Definition chk_c04_text (c : val) : val :=
+  match prop_c04_text (nthv 0 c) (nthv 1 c) with Some r => verdict_propfail r (VL []) | None => verdict_ok end.
